@@ -5,9 +5,12 @@
 (* Css.tla) to cssgen_in.ndjson; TLC checks that each is well formed,      *)
 (* computes its features, atoms, environments and the table of winners     *)
 (* (Css!WinTable) and exports one CASE line per sheet.  The same CaseOf is *)
-(* used by CssMC for the exhaustively enumerated family.                   *)
+(* used by CssMC for the exhaustively enumerated family.  An input line may *)
+(* also name a member of the sequence families of CssSeq by its choice      *)
+(* vector (`choice`); its sheet is then CssSeq!ChoiceSheet and is exported   *)
+(* with the case.                                                            *)
 (***************************************************************************)
-EXTENDS Css, Json, SequencesExt
+EXTENDS CssSeq, Json, SequencesExt
 
 MixedParent(path) ==
   \E k \in SelIdx(path) : /\ \E j \in SelIdx(path) : j > k
@@ -60,7 +63,10 @@ Input == ndJsonDeserialize("cssgen_in.ndjson")
 VARIABLES gen_i, gen_out
 Init == gen_i \in 1..Len(Input) /\ gen_out = FALSE
 Next == /\ ~gen_out /\ gen_out' = TRUE /\ gen_i' = gen_i
-        /\ PrintT(<<"CASE", ToJson(CaseOf(Input[gen_i].id, Input[gen_i].items))>>)
+        /\ LET in == Input[gen_i] IN
+           IF "choice" \in DOMAIN in
+           THEN PrintT(<<"CASE", ToJson(Bind(ChoiceSheet(in.choice), LAMBDA sh : CaseOf(in.id, sh) @@ [items |-> sh]))>>)
+           ELSE PrintT(<<"CASE", ToJson(CaseOf(in.id, in.items))>>)
 Spec == Init /\ [][Next]_<<gen_i, gen_out>>
 
 VocabInit == gen_i = 0 /\ gen_out = FALSE
